@@ -20,6 +20,7 @@ observed.  Output: one JSON object on the last line of stdout.
 from __future__ import print_function
 import importlib
 import json
+import re
 import os
 import random
 import sys
@@ -73,7 +74,7 @@ def main(argv):
                 return True
             for expr in known_regions:
                 try:
-                    if eval(expr, {"json": json, "case": case, "detail": str(detail),
+                    if eval(expr, {"json": json, "re": re, "case": case, "detail": str(detail),
                                    "text": json.dumps(case, sort_keys=True, default=str)}):
                         return True
                 except Exception:
